@@ -66,6 +66,52 @@ impl Record<'_> {
             Position::new(end)
         })
     }
+
+    // Returns the reference sequence and the alignment start relative to it.
+    fn reference_sequence_and_alignment_start(&self) -> io::Result<(Option<&[u8]>, Position)> {
+        fn invalid_alignment_start() -> io::Error {
+            io::Error::new(io::ErrorKind::InvalidData, "invalid alignment start")
+        }
+
+        match self.reference_sequence.as_ref() {
+            Some(ReferenceSequence::Embedded {
+                reference_start,
+                sequence,
+            }) => {
+                let offset_alignment_start = self
+                    .alignment_start
+                    .and_then(|start| usize::from(start).checked_sub(usize::from(*reference_start)))
+                    .and_then(|offset| Position::new(offset + 1))
+                    .ok_or_else(invalid_alignment_start)?;
+
+                Ok((Some(*sequence), offset_alignment_start))
+            }
+            Some(ReferenceSequence::External { sequence, .. }) => {
+                let alignment_start = self.alignment_start.ok_or_else(invalid_alignment_start)?;
+                Ok((Some((**sequence).as_ref()), alignment_start))
+            }
+            None => Ok((None, Position::MIN)),
+        }
+    }
+
+    /// Validates that the sequence can be resolved from the features and reference sequence.
+    ///
+    /// `sam::alignment::Record::sequence` is infallible, so this is called when the record is read.
+    pub(crate) fn validate_sequence(&self) -> io::Result<()> {
+        if self.bam_flags.is_unmapped() || self.cram_flags.sequence_is_missing() {
+            return Ok(());
+        }
+
+        let (reference_sequence, alignment_start) =
+            self.reference_sequence_and_alignment_start()?;
+
+        sequence::validate(
+            reference_sequence,
+            &self.features,
+            alignment_start,
+            self.read_length,
+        )
+    }
 }
 
 impl Default for Record<'_> {
@@ -147,22 +193,10 @@ impl sam::alignment::Record for Record<'_> {
         if self.bam_flags.is_unmapped() || self.cram_flags.sequence_is_missing() {
             Box::new(Bases(&self.sequence[..]))
         } else {
-            let (reference_sequence, alignment_start) = match self.reference_sequence.as_ref() {
-                Some(ReferenceSequence::Embedded {
-                    reference_start,
-                    sequence,
-                }) => {
-                    let alignment_start = usize::from(self.alignment_start.unwrap());
-                    let offset = usize::from(*reference_start);
-                    let offset_alignment_start =
-                        Position::new(alignment_start - offset + 1).unwrap();
-                    (Some(*sequence), offset_alignment_start)
-                }
-                Some(ReferenceSequence::External { sequence, .. }) => {
-                    (Some((**sequence).as_ref()), self.alignment_start.unwrap())
-                }
-                None => (None, Position::MIN),
-            };
+            // SAFETY: The record is validated (`Record::validate_sequence`) when it is read.
+            let (reference_sequence, alignment_start) = self
+                .reference_sequence_and_alignment_start()
+                .expect("invalid alignment start");
 
             Box::new(Sequence::new(
                 reference_sequence,
